@@ -170,4 +170,27 @@ PROPS = {
         "rule": "One evaluation = one hash or one semantic-builder operation. (hash) For a function f on <= 7 variables (parity, ite(x,g,!g), threshold, random, CNF-derived) and each prime in {U32_TINY, U32_SMALL, U64_LARGEST} the defining sum over the models of f of the product of create_semantic_hash_map weights is computed from the truth table with the harness's own modular arithmetic and compared with semantic_hash of BDDs under 3 random orders, SDDs under 2 random vtrees and top-down decision-DNNFs under 2 random orders (so all representations agree with each other); the negation must hash to 1 - h; cached_semantic_hash (asked twice, and through a second construction history) must equal it (one prime per builder, S3); the hash weights must sum to one. (semantic builders) SemanticSddBuilder<P> is driven through random and/or/negate/condition/exists histories and compile_cnf, SemanticDecisionNNFBuilder<P> through compile_cnf_topdown and condition: for every prime eq() must be true on every pair of pool members (both polarities, both argument orders) whose oracle truth tables are equal; over U64_LARGEST every returned diagram must have the right truth table, under 32-bit primes a wrong table is a hash collision and only recorded (S4). Non-trivial = function neither constant nor literal; distinct = distinct (function, representation, sub-check) / (function, op, vtree).",
         "assumptions": ASSUME_COMMON + ["S3/S4: one prime and weight map per builder; collisions under 32-bit primes are recorded, not violations; ite/iff/xor/compose of SemanticSddBuilder are todo!() and excluded as in the property text"],
     },
+    "C12": {
+        "profiles": {"quick": ["mon"], "thorough": ["mon", "monrel"]},
+        "scale": {"quick": 1, "thorough": 40},
+        "floors": {
+            "quick": {"marginal_map": 1400, "bb_real": 1400, "meu": 1400, "bb_eu": 1400, "queries_with_ignored_variable": 200,
+                      "cases_with_utilities": 500, "cases_with_tiny_utilities": 300},
+            "thorough": {"marginal_map": 50000},
+        },
+        "rule": "One evaluation = one optimisation query on a BDD (random order, <= 7 variables; parity / ite(x,g,!g) / threshold / random functions) compared with exhaustive maximisation by the oracle. marginal_map and bb::<RealSemiring>: query set = empty, all, or a random subset in random order (incl. variables the function ignores); every weight in [0,1] (dyadic, sixteenths), non-query variables normalised, query weights arbitrary with frequent near-ties; expected optimum = max over query assignments a of prod w(a) * U(f|a), U the exact unsmoothed count (S2). meu and bb::<ExpectedUtility>: decision variables carry (1,0),(1,0), chance variables (p,0),(1-p,0), utility-bearing variables (1,u_lo),(1,u_hi) with non-negative dyadic utilities placed below every decision variable in the order; utilities are additionally scaled by 2^-s, s in {0,10,40,70,200} (exact) so that tiny magnitudes occur; expected optimum = max over decision assignments of the utility component of U(f|a). Checks: returned value equals the optimum EXACTLY (S13), the returned partial model assigns every query/decision variable, and the oracle value of that model equals the optimum (ties free). Non-trivial = function neither constant nor literal and a non-empty query; distinct = distinct (function, order, query, weights, query kind).",
+        "assumptions": ASSUME_COMMON + ["S2: the weighted count is the unsmoothed count U; weights are in the domain stated by the property"],
+    },
+    "C16": {
+        "profiles": {"quick": ["mon"], "thorough": ["mon", "monrel"]},
+        "scale": {"quick": 1, "thorough": 30},
+        "floors": {
+            "quick": {"lru_gets": 300000, "lru_hits": 10000, "lru_overwrites": 100000, "lru_histories_with_growth": 300,
+                      "paired_results": 30000, "paired_histories_with_overwrites": 500, "paired_histories_with_cache_growth": 300,
+                      "cold_replays": 3000},
+            "thorough": {"lru_gets": 8000000},
+        },
+        "rule": "Three monitors. (a) util::lru::Lru<K,V> driven directly: 50-2500 random insert/get operations per cache on 2-200 keys, initial capacity 2^0..2^6 slots, hashes a function of the key chosen adversarially (spread, 5 buckets, equal low bits that separate only after growth, collisions up to a capacity); every inserted value is fresh, so a stale or foreign value is distinguishable; model = HashMap key -> last value; get must return None or exactly the model's value. (b) The same generated BDD operation history is executed on RobddBuilder<AllIteTable> and on RobddBuilder<LruIteTable> whose cache starts at 2^0..2^4 slots (hook) and whose unique table starts at 2..64 slots; after every operation the two results must have the same canonical serialisation (isomorphism class incl. complement marks). (c) SDD: every 3rd operation of a long-lived CompressionSddBuilder (warm apply and ite caches) is redone in a fresh builder on operands rebuilt from their truth tables by Shannon expansion, and the isomorphism classes must agree. Floors require overwrites, cache growth and cache hits to have been observed. evaluations = caches / paired histories / SDD histories; all non-trivial; distinct = distinct inputs.",
+        "assumptions": ASSUME_COMMON + ["the hash handed to the lossy cache is a function of the key, as in both ITE adapters"],
+    },
 }
